@@ -5,9 +5,9 @@ From Muscle Require Import Gen.Consts Cont.QueueModel Cont.QueueInv Cont.QueuePr
 Import ListNotations.
 Local Open Scope nat_scope.
 
-(* ARRAYITEMS(_smallQueue) as translated from util/Queue.h on every run; the theorems above hold
+(* ARRAYITEMS(_smallQueue) for the 4-byte items of the harness, as translated from util/Queue.h on every run; the theorems above hold
    for every positive size, this instance re-checks that the translated constant is positive *)
-Definition small_queue_size : nat := N.to_nat c_SMALL_QUEUE_SIZE.
+Definition small_queue_size : nat := N.to_nat c_QUEUE_INLINE_SLOTS_INT32.
 
 Lemma small_queue_size_pos : 0 < small_queue_size.
 Proof. vm_compute. lia. Qed.
